@@ -199,6 +199,7 @@ def make_engine_provider(sysobj, side, oid_is_path, case_sensitive, filter_event
                         if sysobj.inj.get("crash_after_pw") == sysobj.inj["nmut"]:
                             sysobj.inj["crash_after_pw"] = None
                             raise Crash()
+                sysobj.mid_tick()         # a user operation armed for "after the k-th engine call" happens here, mid-step
 
         # -- mutating API ----------------------------------------------------------------------------
         def create(self, path, file_like, metadata=None):
@@ -675,6 +676,22 @@ class System:
                     now=int(self.clk.t * 1000) % 100000000)
         return ok
 
+    # ---- user operations in the middle of an engine step ---------------------------------------------------------
+    def mid_tick(self):
+        m = getattr(self, "mid", None)
+        if m is None or self.in_user:
+            return
+        m["n"] += 1
+        if m["n"] >= m["k"]:
+            self.mid = None
+            self.user(m["side"], m["op"])
+
+    def mid_flush(self):
+        m = getattr(self, "mid", None)
+        if m is not None:                 # the step made fewer calls than k: the operation happens at the step boundary
+            self.mid = None
+            self.user(m["side"], m["op"])
+
     # ---- engine steps ------------------------------------------------------------------------------------------
     def _guarded(self, name, fn):
         from cloudsync.runnable import _BackoffError
@@ -923,8 +940,12 @@ class System:
                 self.restart("intact")
             else:
                 return
+        if k != "S":
+            self.mid_flush()
         if k == "U":
             self.user(tok[1], tok[2])
+        elif k == "UM":                   # ["UM", k, side, op]: op is performed right after the k-th engine provider call from now
+            self.mid = {"k": tok[1], "n": 0, "side": tok[2], "op": tok[3]}
         elif k == "EL":
             self.intake(0, tok[1] if len(tok) > 1 else 0)
         elif k == "ER":
